@@ -22,7 +22,7 @@ Rec == ndJsonDeserialize(IOEnv.TRACE)
 VARIABLES l,      \* next line of the trace to consume
           s,      \* the machine state of Cose.tla
           open,   \* TRUE while the current session is not followed: parser gap, or outcome kinds diverged; until reset
-          rel,    \* C06: the structure bytes handed to closures so far in this session, as pairs <<specification's, crate's>>
+          rel,    \* C06: the structure bytes handed to closures so far in this trace, as pairs <<specification's, crate's>>
           fp      \* fixed-point tracking (C07): [on, f7, val, bytes]: value/bytes of the last decode / encode since the wire was last touched
 tvars == <<l, s, open, fp, rel>>
 
@@ -164,7 +164,13 @@ PropUntagged(st, e, o) ==
 (* C06: any two closures of one session were handed equal structure bytes by the crate exactly when the specification says so *)
 HasCb(n, o) == n.out.kind = o.kind /\ n.out.cb # <<>> /\ o.cb # <<>>
 PropRel(n, o) == ~HasCb(n, o) \/ \A i \in 1..Len(rel) : (rel[i][1] = Last(n.out.cb)) = (rel[i][2] = Last(o.cb))
-NextRel(n, o) == IF HasCb(n, o) THEN Append(rel, <<Last(n.out.cb), Last(o.cb)>>) ELSE rel
+RelWindow == 40           \* the correspondence is checked against the most recent RelWindow distinct pairs of at most RelMaxLen
+RelMaxLen == 2000         \* bytes each (rel is part of every TLC state: it must stay small for validation to stay linear)
+NextRel(n, o) ==
+  IF ~HasCb(n, o) \/ Len(Last(n.out.cb)) > RelMaxLen \/ Len(Last(o.cb)) > RelMaxLen THEN rel
+  ELSE LET p == <<Last(n.out.cb), Last(o.cb)>> IN
+       IF \E i \in 1..Len(rel) : rel[i] = p THEN rel
+       ELSE IF Len(rel) >= RelWindow THEN Append(Tail(rel), p) ELSE Append(rel, p)
 
 (* fixed point (C07), on the crate's OWN observations: once a decode has succeeded, decoding what the crate's encoder wrote *)
 (* gives the same value, and encoding that gives the same bytes                                                        *)
@@ -183,7 +189,7 @@ Consume ==
   /\ l <= Len(Rec)
   /\ l' = l + 1
   /\ LET e == Rec[l].e o == Rec[l].o IN
-     IF IsReset(e) THEN s' = InitState /\ open' = FALSE /\ fp' = FpNone /\ rel' = <<>>
+     IF IsReset(e) THEN s' = InitState /\ open' = FALSE /\ fp' = FpNone /\ rel' = rel       \* (rel spans sessions: the correspondence is global)
      ELSE IF e.ev = "cmp" THEN
        /\ UNCHANGED <<s, open, fp, rel>>
        /\ (CmpExpect(e) = [cmp |-> o.cmp, canon |-> o.canon, eq |-> o.eq]
